@@ -833,6 +833,18 @@ class RecurrencePlot(Cached):
         if not self.sparse_rqa:
             R = self.recurrence_matrix()
             RR = R.sum() / N ** 2
+        elif self.metric == "supremum" and self.missing_values \
+                and self.threshold is not None:
+            #  vertline_dist() leaves out the lines touching missing values:
+            #  count the recurrence points among the complete state vectors
+            embedding = np.ascontiguousarray(
+                self.embedding[~self.missing_value_indices])
+            n = embedding.shape[0]
+            vertline = np.zeros(n, dtype=NODE)
+            _vertline_dist_sequential(
+                n, vertline, embedding, float(self.threshold),
+                embedding.shape[1])
+            RR = (vertline * np.arange(1, n + 1)).sum() / N ** 2
         elif self.metric == "supremum":
             RR = (self.vertline_dist() * np.arange(1, N + 1)).sum() / N ** 2
         else:
